@@ -223,13 +223,20 @@ pub(crate) fn wrap_single_line_slow_path<'a>(
     let subsequent_width = options
         .width
         .saturating_sub(display_width(options.subsequent_indent));
-    let line_widths = [initial_width, subsequent_width];
+    // Only the very first line of the output carries the initial
+    // indent, all lines of later paragraphs carry the subsequent one.
+    let first_line = lines.is_empty();
+    let line_widths = if first_line {
+        [initial_width, subsequent_width]
+    } else {
+        [subsequent_width, subsequent_width]
+    };
 
     let words = options.word_separator.find_words(line);
     let split_words = split_words(words, &options.word_splitter);
     let broken_words = if options.break_words {
         let mut broken_words = break_words(split_words, line_widths[1]);
-        if !options.initial_indent.is_empty() {
+        if first_line && !options.initial_indent.is_empty() {
             // Without this, the first word will always go into the
             // first line. However, since we break words based on the
             // _second_ line width, it can be wrong to unconditionally
